@@ -10,7 +10,7 @@ import itertools
 from vt import core
 
 PROP = 'C21'
-RULE = ('all sequences of length 1..3 over factor pools (A:2,B:2) and (A:2,C:3; length<=2), lists of 1 experiment (all) and 2 '
+RULE = ('all sequences of length 1..3 over factor pools (A:2,B:2), (A:2,C:3; length<=2) and (A:2,T:2 with empty cells as a Transition factor has; length<=2), lists of 1 experiment (all) and 2 '
         'experiments (length<=2), x 6 factor selections x (None + every non-empty index subset). Non-trivial = some combination '
         'has frequency strictly between 0 and the number of selected trials, or trials is a proper subset.')
 ASSUMPTIONS = ['experiments in one list have equal length (as synthesize_trials produces them)',
@@ -18,12 +18,16 @@ ASSUMPTIONS = ['experiments in one list have equal length (as synthesize_trials 
 BUDGET_S = {'quick': 120, 'thorough': 600}
 
 POOLS = {'AB': [('A', ['a0', 'a1']), ('B', ['b0', 'b1'])],
-         'AC': [('A', ['a0', 'a1']), ('C', ['c0', 'c1', 'c2'])]}
+         'AC': [('A', ['a0', 'a1']), ('C', ['c0', 'c1', 'c2'])],
+         # a column as a Transition/Window factor produces it: '' where the factor has no level (such trials match no
+         # combination but still count as selected trials)
+         'AT': [('A', ['a0', 'a1']), ('T', ['t0', 't1'])]}
+DATA = {'AT': {'T': ['', 't0', 't1']}}
 
 
 def items(tier, seed):
     out = []
-    for pool, maxL in (('AB', 3), ('AC', 2 if tier == 'quick' else 3)):
+    for pool, maxL in (('AB', 3), ('AC', 2 if tier == 'quick' else 3), ('AT', 2 if tier == 'quick' else 3)):
         for L in range(1, maxL + 1):
             out.append({'pool': pool, 'L': L, 'nexp': 1})
             if L <= 2:
@@ -67,7 +71,7 @@ def run_item(item):
     trial_sets = [None] + [list(s) for r in range(1, L + 1) for s in itertools.combinations(range(L), r)]
     if L >= 2:
         trial_sets.append(list(reversed(range(L))))
-    trials_all = list(itertools.product(*[lv for _, lv in pool]))
+    trials_all = list(itertools.product(*[DATA.get(item['pool'], {}).get(n, lv) for n, lv in pool]))
     seqs = list(itertools.product(trials_all, repeat=L))
     viols = []
     states = transitions = 0
